@@ -63,6 +63,31 @@ class C20(Prop):
         for rel, q, c, label in K.FUNCTIONS:
             reps.append(deductive.verify_function(rel, q, c, hooks=K.hooks_for(c),
                                                   prefix='%s::%s%s' % (rel, q, '[%s]' % label if label else '')))
+        # frame: a selection primitive does not update its score array (or any other argument) in place - the same array may be
+        # passed again (MST scores every remaining edge from one weight vector), and a rescaled copy would change later choices
+        import time
+        from ..vc import frames
+        from ..vc.solver import Obligation
+        for rel, q in (('mechanisms/mst.py', 'exponential_mechanism'), ('mechanisms/adaptive_grid.py', 'exponential_mechanism'),
+                       ('mechanisms/mechanism.py', 'Mechanism.exponential_mechanism'), ('mechanisms/mwem+pgm.py', 'worst_approximated'),
+                       ('mechanisms/aim.py', 'AIM.worst_approximated')):
+            t0 = time.time()
+            r = deductive.FunctionReport(rel, q + ' [arguments are not updated in place]')
+            try:
+                ow = frames.Ownership(rel, q)
+                r.obligations = ow.run()
+                r.sha = ow.sha
+                o = Obligation('%s::%s/owned-target#every-in-place-update-found(%d)-targets-an-object-of-this-call' % (rel, q, len(r.obligations)), [], None,
+                               function='%s::%s' % (rel, q), kind='frame')
+                o.verdict = 'discharged' if all(x.verdict == 'discharged' for x in r.obligations) else 'refuted'
+                o.backend, o.model = 'ownership analysis (pv/vc/frames.py)', {}
+                o.meta = {'base': '%s::%s/owned-target#summary' % (rel, q)}
+                r.obligations = r.obligations + [o]
+            except Exception as e:
+                r.undecided = 'ownership analysis: %s: %s' % (type(e).__name__, e)
+            r.vacuity = []
+            r.seconds = time.time() - t0
+            reps.append(r)
         return reps
 
     def replay_obligation(self, ob):
